@@ -257,7 +257,7 @@ def numpy_array_1d_to_fits(
 
     file_dir = os.path.split(file_path)[0]
 
-    if not os.path.exists(file_dir):
+    if file_dir and not os.path.exists(file_dir):
         os.makedirs(file_dir)
 
     if overwrite and os.path.exists(file_path):
